@@ -46,6 +46,42 @@ def instantiate(ws: dict, j: int) -> dict:
     return ws
 
 
+def extents_of(ws: dict) -> dict:
+    res = T.Resolver({T.def_key(d): d for r in ws["roots"] for d in r["defs"]})
+    out = {}
+    for k, d in res.defs.items():
+        for si in range(len(d["secs"])):
+            sec = res.sec(k, si)
+            out[(k, si)] = (sec.inner_extent, sec.extent)
+    return out
+
+
+def affine_class(skel: dict, js: list[int]) -> bool:
+    """True iff every extent of every section is one affine function a * 2**j + b of the capacity exponent over all the given
+    exponents (i.e. the same member dominates every maximum): then all repetition counts are congruent modulo the queried
+    divisors (8, 32) for j >= 8 and the solver does literally the same work."""
+    pts = [(j, extents_of(instantiate(skel, j))) for j in js]
+    keys = pts[0][1].keys()
+    for key in keys:
+        for idx in (0, 1):
+            (j1, e1), (j2, e2) = (pts[0][0], pts[0][1][key][idx]), (pts[1][0], pts[1][1][key][idx])
+            if e1 is None or e2 is None:
+                continue
+            num = e2 - e1
+            den = 2 ** j2 - 2 ** j1
+            if num % den:
+                return False
+            a = num // den
+            b = e1 - a * 2 ** j1
+            for j, ext in pts[2:]:
+                if ext[key][idx] != a * 2 ** j + b:
+                    return False
+    return True
+
+
+CLASS_POINTS = {16: [8, 10, 12], 32: [16, 20, 24], 64: [32, 48, 62]}
+
+
 class C16(Check):
     PROP = "C16"
     HANG_ORACLE = "C16.budget"  # no progress while analysing a larger capacity: the cost grows with the capacity
@@ -186,6 +222,9 @@ class C16(Check):
         base_counts = None
         base_struct = None
         class_counts: dict = {}
+        affine = {kl: affine_class(scn["ws"], pts) for kl, pts in CLASS_POINTS.items()}
+        for kl, ok in affine.items():
+            out.stats["affine_class_%d" % kl] += 1 if ok else 0
         feats = set()
         for d in scn["ws"]["roots"][0]["defs"]:
             for s in d["secs"]:
@@ -200,12 +239,13 @@ class C16(Check):
         for idx, j in enumerate(scn["exps"]):
             ws = instantiate(scn["ws"], j)
             klass = 8 if j < 8 else 16 if j < 16 else 32 if j < 32 else 64  # width of the implicit length prefix
+            comparable = klass in affine and affine[klass] and klass in class_counts
             if base_counts is None:
                 limit["bls"] = ABS_LIMIT
-            elif klass in class_counts:
-                limit["bls"] = 2 * class_counts[klass][1]["bls"] + 2000  # same class: the step count must be identical
+            elif comparable:
+                limit["bls"] = 2 * class_counts[klass][1]["bls"] + 2000  # must be identical to the reference of its class
             else:
-                limit["bls"] = min(100 * base_counts["bls"] + 1_000_000, 10_000_000)  # another prefix width: other residues
+                limit["bls"] = 10_000_000  # not comparable (first of its class / not affine): only keeps the run finite
             self.heartbeat()
             c, result = measure(ws, scn.get("jumps", []))
             out.stats["instances"] += 1
@@ -213,11 +253,11 @@ class C16(Check):
             out.stats["virtual_steps(other pydsdl frames)"] += c["other"]
             out.obs.append([j, c["bls"], c["other"], result[0]])
             if result[0] == "budget":
-                if base_counts is None or klass not in class_counts:
-                    # not comparable: the family is expensive at its smallest capacity / the prefix width changed the residues
+                if not comparable:
+                    # expensive independently of capacity, or nothing to compare with: inconclusive, counted, never an alarm
                     out.stats["saturated_families(skipped)"] += 1
                     break
-                out.fail("C16.budget", "capacity 2**%d+%d: more than twice the steps of 2**%d+%d (%d), which has the same prefix width and residues: the analysis cost grows with the capacity" % (
+                out.fail("C16.budget", "capacity 2**%d+%d: more than twice the solver steps of 2**%d+%d (%d), although both have the same prefix width and every extent is the same affine function of the capacity: the analysis cost grows with the capacity" % (
                     j, scn["r"], class_counts[klass][0], scn["r"], class_counts[klass][1]["bls"]), "budget")
                 break
             if result[0] == "exc":
@@ -241,13 +281,20 @@ class C16(Check):
                     out.fail("C16.clock", "results differ with and without clock jumps", "clock")
                 if c2["bls"] != c["bls"]:
                     out.fail("C16.clock", "step count differs with and without clock jumps (%d vs %d)" % (c["bls"], c2["bls"]), "clock-steps")
+            ratio = c["bls"] / max(1, base_counts["bls"])
+            out.stats["max_step_ratio_x1000"] = max(out.stats["max_step_ratio_x1000"], int(ratio * 1000))
+            if not affine.get(klass):
+                # a fixed-size member dominates some maximum at one capacity but not at the other: repetition counts differ
+                # modulo the divisor and the step counts legitimately differ by a few iterations; not compared
+                out.stats["instances_not_comparable(non-affine extents)"] += 1
+                continue
             ref = class_counts.get(klass)
             if ref is None:
                 class_counts[klass] = (j, c, struct)
                 continue
             j0, c0, s0 = ref
             if c["bls"] != c0["bls"]:
-                out.fail("C16.constant", "bit-length-set solver steps: %d at capacity 2**%d+%d vs %d at 2**%d+%d (same prefix width, same residues)" % (c["bls"], j, scn["r"], c0["bls"], j0, scn["r"]),
+                out.fail("C16.constant", "bit-length-set solver steps: %d at capacity 2**%d+%d vs %d at 2**%d+%d (same prefix width; every extent is the same affine function of the capacity, so all repetition counts are congruent)" % (c["bls"], j, scn["r"], c0["bls"], j0, scn["r"]),
                          "steps-bls:" + ("more" if c["bls"] > c0["bls"] else "fewer"))
             if c["other"] != c0["other"]:
                 out.fail("C16.constant", "other pydsdl steps: %d at capacity 2**%d+%d vs %d at 2**%d+%d" % (c["other"], j, scn["r"], c0["other"], j0, scn["r"]),
